@@ -40,6 +40,28 @@ func genC02(t *rapid.T) CaseC02 {
 		g.TextGen = genCastText
 	}
 	c := CaseC02{Opts: o, Doc: g.Elem(t, rapid.IntRange(1, 4).Draw(t, "depth"))}
+	if rapid.IntRange(0, 7).Draw(t, "seqnames") == 0 {
+		// tag sequence numbers are off here: an element called _seq and an attribute called seq are ordinary names
+		first := true
+		c.Doc.walk(func(e *XElem) {
+			// (an element whose name begins with the attribute prefix would come back as an attribute: outside the domain)
+			if !first && e.Prefix == "" && !strings.HasPrefix("_seq", o.AttrPrefix) && rapid.IntRange(0, 2).Draw(t, "seqelem") == 0 {
+				e.Local = "_seq"
+			}
+			first = false
+			for i := range e.Attrs {
+				if e.Attrs[i].Prefix == "" && e.Attrs[i].Local != "xmlns" && rapid.IntRange(0, 2).Draw(t, "seqattr") == 0 {
+					dup := false
+					for j := range e.Attrs {
+						dup = dup || (j != i && e.Attrs[j].Local == "seq")
+					}
+					if !dup {
+						e.Attrs[i].Local = "seq"
+					}
+				}
+			}
+		})
+	}
 	c.Indent = rapid.Bool().Draw(t, "indent")
 	blanks := []string{"", " ", "  ", "\t", "    ", " \t"}
 	if o.KeepSpaces {
